@@ -232,7 +232,10 @@ def base_world(tier, cov_type='polygon'):
     a = mk_source('ms3a', 'key', op=50, idx=95)
     b = mk_source('ms3b', 'pal', cov='P', clip=True, idx=96)
     layers['ms3'] = {'name': 'ms3', 'srcs': [a, b], 'rng': 'none'}
-    reduced = ['o_n_x', 'o_n_x2', 'o_50_x', 'o_n_c', 'o_n_u', 'r_n_x', 'r_50_x', 'r_n_c', 'k_n_x', 'p_n_u', 'ms1', 'r_n_xs']
+    # a layer that uses the source of another layer again: requested together, the combined upstream request names an
+    # upstream layer twice (r_n_x,r_n_x2,r_n_x) - the order and the repetition are part of the picture
+    layers['ms4'] = {'name': 'ms4', 'srcs': [layers['r_n_x']['srcs'][0], layers['r_n_x2']['srcs'][0]], 'rng': 'none'}
+    reduced = ['o_n_x', 'o_n_x2', 'o_50_x', 'o_n_c', 'o_n_u', 'r_n_x', 'r_50_x', 'r_n_c', 'k_n_x', 'p_n_u', 'ms1', 'r_n_xs', 'ms4']
     if tier == 'thorough':
         reduced += ['r_n_x2', 'r_50_u', 'o_n_xf', 'o_n_xv', 'k_50_c', 'o_0_x']
     if cov_type == 'bbox':
